@@ -4,7 +4,7 @@
    holds the frame and state of the save that wrote it; exec fails on a Save that names another
    frame than the game's, on a Load that is not earlier, or whose cell does not hold the state saved
    for that frame on the current timeline). *)
-From GGRS Require Import Base Consts Queue Sync P2P Session SessionProofs SessionProgress.
+From GGRS Require Import Base Consts Queue Sync P2P Session SessionProofs SessionProgress SessionSparse.
 Open Scope Z_scope.
 
 (* For EVERY operation sequence (local inputs, remote inputs, gossip, endpoint disconnects,
@@ -23,6 +23,32 @@ Proof.
   destruct (requests_executable predict ops _ _ w p outs (JI_start n w d kinds eps nspec Hw) H) as (g & A & B).
   exists g. split; [exact A|]. split; [apply (ji_frame _ _ _ B)|exact B].
 Qed.
+
+(* The same with SPARSE SAVING (only the state of the last saved frame is ever loaded; invariant JS of
+   SessionSparse.v: the cell of last_saved_frame holds, in the sync layer's and in the game's view, the
+   state the game has for that frame on its current timeline): for EVERY operation sequence of a
+   sparse-saving session, as long as no assert fires, the request lists execute in order and the game
+   ends at current_frame(); every LoadGameState is inside the prediction window. *)
+Theorem C02_requests_executable_sparse :
+  forall (predict : Z -> Z) (n w d : Z) (kinds : list pkind) (eps : list (list Z)) (nspec : nat)
+         (ops : list sop) (p : p2p) (outs : list (pout * apires)),
+  1 <= w ->
+  srun predict (session_start n w true d kinds eps nspec) ops = Ok (p, outs) ->
+  exists g, exec_outs w (game0 w) outs = Some g /\ gframe g = s_current (ps_sync p) /\ JS w p g.
+Proof.
+  intros predict n w d kinds eps nspec ops p outs Hw H.
+  destruct (sp_requests_executable predict ops _ _ w p outs (JS_start n w d kinds eps nspec Hw) H) as (g & A & B).
+  exists g. split; [exact A|]. split; [apply (js_frame _ _ _ B)|exact B].
+Qed.
+
+Theorem C02_one_call_sparse :
+  forall (predict : Z -> Z) (p : p2p) (op : sop) (sr : sres) (g : game) (w : Z),
+  sstep predict p op = Ok sr -> JS w p g ->
+  exists g', exec w g (o_requests (sr_out sr)) = Some g' /\ JS w (sr_state sr) g' /\
+    (s_current (ps_sync (sr_state sr)) = s_current (ps_sync p) \/
+     (op = SAdvance /\ s_current (ps_sync (sr_state sr)) = s_current (ps_sync p) + 1)) /\
+    loads_in_window w (s_current (ps_sync p)) (o_requests (sr_out sr)).
+Proof. exact sp_sstep_exec. Qed.
 
 (* One call, from any state that satisfies the invariant (every reachable state does, by the
    theorem above): its requests execute; the frame is unchanged or - only for advance_frame -
@@ -82,3 +108,12 @@ Qed.
 Example C02_demo_in_space :
   exists r, srun_in (fun x => x) (session_start 2 2 false 0 [KLocal; KRemote 0] [[1]] 0) c02_demo_ops = Ok r.
 Proof. eexists. vm_compute. reflexivity. Qed.
+
+(* non-vacuity: the demo run with sparse saving on: a rollback loads the last saved frame (0) and the
+   confirmed frame is saved on the way *)
+Example C02_demo_sparse :
+  exists p outs, srun (fun x => x) (session_start 2 2 true 0 [KLocal; KRemote 0] [[1]] 0) c02_demo_ops = Ok (p, outs) /\
+    map (fun o => map (fun r => match r with RSave f => (0, f) | RLoad f => (1, f) | RAdvance _ => (2, 0) end) (o_requests (fst o))) outs =
+    [[]; [(0,0);(2,0)]; []; [(2,0)]; []; []; []; [(1,0);(2,0);(0,1);(2,0);(2,0)]].
+Proof. eexists. eexists. split; vm_compute; reflexivity. Qed.
+
